@@ -2,6 +2,7 @@
    Only statements, [exact] and [Print Assumptions] live here. *)
 From Coq Require Import List ZArith Bool Reals Permutation.
 From SR Require Import Base.NumOps Model.Turn Proofs.TurnProofs.
+From SR Require Gen.FormulasTurn Proofs.FormulasTurnProofs.
 Import ListNotations.
 
 (* every state reachable by a legal history (real-number instance of the model): no negative
@@ -59,6 +60,34 @@ Theorem C02_sorted_after_resort :
   forall N key l, keys_ok N key l -> sorted N key (sort_by N key l) /\ Permutation l (sort_by N key l).
 Proof. intros N key l H. split; [exact (sort_by_sorted N key l H)|exact (sort_by_perm N key l)]. Qed.
 Print Assumptions C02_sorted_after_resort.
+
+(* The translator tie: BaseGauge, the action value, its comparison, the gauge decrement and clock of
+   StartTurn, the reset gauge, the floored gauge of SetGauge and the amounts of the three Modify
+   calls are, for every number system and every argument, EQUAL to the definitions go2coq generates
+   from turn/turn.go and turn/modify.go (Gen/FormulasTurn.v; the conjunction is spelled out in
+   Proofs/FormulasTurnProofs.v, C02_formulas_statement). *)
+Theorem C02_model_formulas_are_the_source : FormulasTurnProofs.C02_formulas_statement.
+Proof. exact FormulasTurnProofs.C02_formulas_hold. Qed.
+Print Assumptions C02_model_formulas_are_the_source.
+
+(* StartTurn as a whole, with the generated pieces plugged in *)
+Theorem C02_StartTurn_is_the_source : forall N s,
+  step N s OStart =
+  (if active s then (s, [EErr]) else
+   match resort N s (order s) with
+   | [] => (s, [EPanic])
+   | (hd :: _) as sorted =>
+       let a := FormulasTurn.manager_av N s hd in
+       if negb (forallb (fun u => ntoZ_ok N (nmul N a (spd N s (u_id u)))) sorted)
+       then (s, [EConvUndefined]) else
+       let dec := map (fun u => mkU (u_id u) (FormulasTurn.startTurn_gauge N s a u)) sorted in
+       let dec' := set_gauge_of dec (u_id hd) FormulasTurn.startTurn_actor_gauge in
+       let s' := mkT N dec' (FormulasTurn.startTurn_cost N) true (u_id hd)
+                     (FormulasTurn.startTurn_totalAV N (total s) a) (speeds s) in
+       (s', [EStart (u_id hd) a (status N s') (total s')])
+   end).
+Proof. exact FormulasTurnProofs.gen_StartTurn_is_model. Qed.
+Print Assumptions C02_StartTurn_is_the_source.
 
 Theorem C02_nonvacuous :
   legal (init ROps) [@OAdd ROps [(1%Z, 100%R); (2%Z, 90%R)]; @OStart ROps; @OModNorm ROps 2%Z (-2)%R;
